@@ -151,6 +151,16 @@ check('C26', 'bounded-exhaustive enumeration of constraint placements (inner blo
       'IterateSATGen and RandomGen and compared with the reference set computed with per-repetition / whole-sequence windows; pairs whose placements differ '
       'are counted.', DESIGN_NOTE + '; A3/A4 exclusions', 'DESIGN.md section 4, C26')
 
+check('C18', 'explicit-state search over construction histories on shared factor/constraint objects (all histories up to depth 3/4; canonical states counted)',
+      '10 worlds (one shared constraint object each) x menu of 7 constructions (CrossBlocks of different geometry, MultiCrossBlock, Repeat, Nest, preamble '
+      'block): every history is replayed on a fresh world; for every block built, the exhausted IterateSATGen set and the mismatch verdicts on a probe '
+      'list must equal those of the same block built alone from fresh objects.', 'IterateSATGen and the mismatch checker as observations', 'DESIGN.md section 4, C18')
+
+check('C19', 'explicit-state search over library-call histories on one block (all histories of length <= 3/4 over a 10-operation alphabet; canonical block state hashed)',
+      '6 representative blocks (plain, implied derived, hidden weight factor, continuous, derived continuous + window + constraint, Repeat with preamble): '
+      'after every history the canonical block state must equal the initial one, no call may raise, and every synthesize_trials call must return valid '
+      'sequences with the same columns as the first.', 'discrete validity by the reference membership oracle', 'DESIGN.md section 4, C19')
+
 
 def build():
     props = [json.loads(l) for l in (ROOT / 'properties.jsonl').read_text().splitlines() if l.strip()]
